@@ -736,8 +736,9 @@ type outcome struct {
 // network complete the round (honest proposal and parts if none was accepted, then the other validators' prevotes and
 // precommits for the honest block id, then timeouts).
 const (
-	contTimeouts = 0
-	contHonest   = 1
+	contTimeouts  = 0
+	contHonest    = 1
+	contNextRound = 2 // the current round fails honestly (nil polka, nil precommits), the NEXT round completes honestly
 )
 
 func runCase(f *csnet.Fixture, st state, hs []hostile, cont int) outcome {
@@ -798,12 +799,29 @@ func runCase(f *csnet.Fixture, st state, hs []hostile, cont int) outcome {
 		return o
 	}
 	// the node must be able to go on
-	if cont == contHonest {
+	if cont == contHonest || cont == contNextRound {
 		if p, pv := vk.Catch(func() {
 			if w.n.App.Height() >= w.h {
 				return // the scripted state had already committed this height
 			}
 			r := w.round()
+			if cont == contNextRound {
+				nilID := types.BlockID{}
+				w.T() // whatever step the node is in: let its timeout pass
+				for k := 0; k < 3; k++ {
+					w.pv(k, r, nilID)
+				}
+				for k := 0; k < 3; k++ {
+					w.pc(k, r, nilID)
+				}
+				for i := 0; i < 3 && w.round() == r && w.n.App.Height() < w.h; i++ {
+					w.T()
+				}
+				if w.n.App.Height() >= w.h || w.round() != r+1 {
+					return // the node committed or is elsewhere: nothing more to complete here
+				}
+				r = r + 1
+			}
 			w.prop(r, 0)
 			w.partsAll(r, 0)
 			for k := 0; k < 3; k++ {
@@ -813,8 +831,12 @@ func runCase(f *csnet.Fixture, st state, hs []hostile, cont int) outcome {
 				w.pc(k, r, w.ids[0])
 			}
 		}); p {
-			o.viol = [2]string{"later-panic-after:" + strings.Split(names[0], ",")[0] + ":honest-round-completion:" + normPanic(pv),
-				fmt.Sprintf("in state %s after message(s) %v the honest completion of the round (proposal, parts, +2/3 prevotes and precommits of the other validators for the honest block id) makes the state machine panic: %v (receiveRoutine would log CONSENSUS FAILURE and exit)", st.name, names, normPanic(pv))}
+			what := "honest-round-completion"
+			if cont == contNextRound {
+				what = "honest-next-round-completion"
+			}
+			o.viol = [2]string{"later-panic-after:" + strings.Split(names[0], ",")[0] + ":" + what + ":" + normPanic(pv),
+				fmt.Sprintf("in state %s after message(s) %v the %s (proposal, parts, +2/3 prevotes and precommits of the other validators for the honest block id) makes the state machine panic: %v (receiveRoutine would log CONSENSUS FAILURE and exit)", st.name, names, what, normPanic(pv))}
 			return o
 		}
 		o.committedAfter = w.n.App.Height() >= w.h
@@ -860,7 +882,8 @@ func main() {
 			// accepted now may make the node fail only when the honest votes arrive)
 			if !strings.Contains(h.name, "@channel") {
 				jobs = append(jobs, job{st, []hostile{h}, contHonest})
-				honest++
+				jobs = append(jobs, job{st, []hostile{h}, contNextRound})
+				honest += 2
 			}
 		}
 	}
@@ -928,6 +951,9 @@ func main() {
 		if jobs[i].cont == contHonest {
 			out[0] += "+honest-round-completion"
 		}
+		if jobs[i].cont == contNextRound {
+			out[0] += "+honest-next-round-completion"
+		}
 		for _, h := range jobs[i].hs {
 			out = append(out, h.name)
 		}
@@ -957,7 +983,7 @@ func main() {
 		done++
 		o := res
 		if o.Fatal != "" {
-			o.State, o.Msgs = strings.TrimSuffix(strings.TrimPrefix(o.Msgs[0], "state="), "+honest-round-completion"), o.Msgs[1:]
+			o.State, o.Msgs = strings.TrimSuffix(strings.TrimSuffix(strings.TrimPrefix(o.Msgs[0], "state="), "+honest-round-completion"), "+honest-next-round-completion"), o.Msgs[1:]
 			kind := o.Msgs[0]
 			if k := strings.Index(kind, ","); k > 0 {
 				kind = kind[:k] + "}"
